@@ -110,6 +110,184 @@ def swallow_audit(rep, u, fn, accepted=()):
            construct='swallow')
 
 
+# ---------------------------------------------------------------------------
+# decision tables of providedBy (both twins)
+
+def providedby_cases():
+    yield ('super', None, None, None)
+    yield ('noattr', None, None, None)          # no __providedBy__
+    yield ('pb_error', None, None, None)        # reading it raises ValueError
+    yield ('spec', None, None, None)            # a real specification
+    yield ('ducktyped', None, None, None)       # not a spec instance, has .extends
+    yield ('extends_error', None, None, None)   # probing .extends raises KeyError
+    for prov in ('missing', 'error', 'has'):
+        if prov != 'has':
+            yield ('nonspec', prov, None, None)
+            continue
+        for cp in ('missing', 'error', 'same', 'different'):
+            yield ('nonspec', prov, cp, None)
+
+
+def providedby_spec(case):
+    pb, prov, cp, _ = case
+    if pb == 'super':
+        return 'implementedBy(ob)'
+    if pb == 'noattr':
+        return 'getObjectSpecification(ob)'
+    if pb == 'pb_error':
+        return 'raise ValueError'
+    if pb in ('spec', 'ducktyped'):
+        return 'R'
+    if pb == 'extends_error':
+        return 'raise KeyError'
+    if prov == 'missing':
+        return 'implementedBy(CLS)'
+    if prov == 'error':
+        return 'raise ValueError'
+    if cp == 'missing':
+        return 'PROVIDES'
+    if cp == 'error':
+        return 'raise ValueError'
+    if cp == 'same':
+        return 'implementedBy(CLS)'
+    return 'PROVIDES'
+
+
+def providedby_py(func):
+    from ..peval import Interp, Opaque, outcome, Raised
+    table = {}
+    for case in providedby_cases():
+        pb, prov, cp, _ = case
+        PROV = Opaque('PROVIDES', label='PROVIDES')
+        CP = PROV if cp == 'same' else Opaque('CP', label='CP')
+        clsattrs = {}
+        if cp in ('same', 'different'):
+            clsattrs['__provides__'] = CP
+        elif cp == 'error':
+            clsattrs['__provides__'] = Raised('ValueError')
+        CLS = Opaque('CLS', attrs=clsattrs, label='CLS')
+        rattrs = {}
+        if pb in ('spec', 'ducktyped'):
+            rattrs['extends'] = Opaque('extends', label='extends')
+        elif pb == 'extends_error':
+            rattrs['extends'] = Raised('KeyError')
+        R = Opaque('R', attrs=rattrs, label='R')
+        obattrs = {'__class__': CLS}
+        if pb not in ('noattr', 'pb_error', 'super'):
+            obattrs['__providedBy__'] = R
+        if pb == 'pb_error':
+            obattrs['__providedBy__'] = Raised('ValueError')
+        if prov == 'has':
+            obattrs['__provides__'] = PROV
+        elif prov == 'error':
+            obattrs['__provides__'] = Raised('ValueError')
+        ob = Opaque('ob', attrs=obattrs, label='ob')
+
+        def isinst(v, clsname, n, pb=pb):
+            if clsname == 'super':
+                return pb == 'super'
+            raise AnalysisError('isinstance(%s)' % clsname)
+
+        def call(n, env, interp):
+            d = dotted(n.func)
+            if d in ('implementedBy', 'getObjectSpecification') and len(n.args) == 1:
+                a = interp.ev(n.args[0], env)
+                return Opaque(d, label='%s(%s)' % (d, getattr(a, 'label', a)))
+            raise AnalysisError('call outside model: %s' % norm_src(n))
+        it = Interp(hooks={'isinstance': isinst, 'call': call})
+        try:
+            o = outcome(it, func, [ob])
+            table[case] = o[1] if o[0] == 'return' else 'raise ' + o[1]
+        except AnalysisError as e:
+            table[case] = 'UNDECIDED ' + str(e)[:80]
+    return table
+
+
+def providedby_c(u):
+    from ..ceval import CInterp, Sym
+    f = u.func('providedBy')
+    table = {}
+
+    class M:
+        def __init__(s, case):
+            s.pb, s.prov, s.cp, _ = case
+            s.err = None
+            s.ob, s.CLS, s.R = Sym('ob'), Sym('CLS'), Sym('R')
+            s.PROV = Sym('PROVIDES')
+            s.CP = s.PROV if s.cp == 'same' else Sym('CP')
+            s.g = {}
+
+        def glob(s, n):
+            return s.g.setdefault(n, Sym(n))
+
+        def field(s, base, name):
+            return Sym('%s.%s' % (getattr(base, 'name', base), name))
+
+        def setfield(s, *a):
+            raise AnalysisError('store')
+
+        def fail(s, exc):
+            s.err = exc
+            return None
+
+        def call(s, name, args, interp, env):
+            if name in ('Py_INCREF', 'Py_XINCREF', 'Py_DECREF', 'Py_XDECREF'):
+                return None
+            if name in ('PyModule_GetState', '_zic_state', '_zic_state_load_declarations'):
+                return Sym('rec')
+            if name == 'PyObject_IsInstance':
+                return 1 if s.pb == 'super' else 0
+            if name == 'implementedBy':
+                return Sym('implementedBy(%s)' % args[1].name)
+            if name == 'getObjectSpecification':
+                return Sym('getObjectSpecification(%s)' % args[1].name)
+            if name == 'PyErr_ExceptionMatches':
+                return 1 if s.err == getattr(args[0], 'name', '')[6:] else 0
+            if name == 'PyErr_Clear':
+                s.err = None
+                return None
+            if name == 'PyObject_TypeCheck':
+                return 1 if (args[0] is s.R and s.pb == 'spec') else 0
+            if name in ('PyObject_GetAttrString', 'PyObject_HasAttrString'):
+                has = name.startswith('PyObject_Has')
+                if args[0] is s.R and args[1] == 'extends':
+                    if s.pb in ('spec', 'ducktyped'):
+                        return 1 if has else Sym('extends')
+                    if s.pb == 'extends_error':
+                        return 0 if has else s.fail('KeyError')
+                    return 0 if has else s.fail('AttributeError')
+                raise AnalysisError('unexpected probe %s' % (args[1],))
+            if name == 'PyObject_GetAttr':
+                ob, attr = args
+                an = getattr(attr, 'name', '')
+                if ob is s.ob and an == 'str__providedBy__':
+                    if s.pb == 'noattr':
+                        return s.fail('AttributeError')
+                    if s.pb == 'pb_error':
+                        return s.fail('ValueError')
+                    return s.R
+                if ob is s.ob and an == 'str__class__':
+                    return s.CLS
+                if ob is s.ob and an == 'str__provides__':
+                    if s.prov == 'has':
+                        return s.PROV
+                    return s.fail('AttributeError' if s.prov == 'missing' else 'ValueError')
+                if ob is s.CLS and an == 'str__provides__':
+                    if s.cp in ('same', 'different'):
+                        return s.CP
+                    return s.fail('AttributeError' if s.cp == 'missing' else 'ValueError')
+                raise AnalysisError('unexpected probe %r.%s' % (ob, an))
+            raise AnalysisError('call %s outside model' % name)
+    for case in providedby_cases():
+        m = M(case)
+        try:
+            v = CInterp(m).run(f, [Sym('module'), m.ob])
+            table[case] = ('raise ' + (m.err or 'NULL-without-error')) if v is None else v.name
+        except AnalysisError as e:
+            table[case] = 'UNDECIDED ' + str(e)[:80]
+    return table
+
+
 def py_handlers(func):
     out = []
     for n in ast.walk(func):
@@ -225,6 +403,25 @@ def run(rep):
     swallow_audit(rep, u, 'IB__call__')
     swallow_audit(rep, u, 'implementedBy',
                   accepted=('implementedByFallback', 'getitem-keyerror'))
+    want = {c: providedby_spec(c) for c in providedby_cases()}
+    pyt = providedby_py(find_def(dmod, 'providedBy'))
+    ct = providedby_c(u)
+    f = find_def(dmod, 'providedBy')
+    bad = {str(k): [v, want[k]] for k, v in pyt.items() if v != want[k]}
+    rep.check('F4', 'declarations.providedBy', not bad,
+              'decision table of the Python providedBy over %d cases (which '
+              'attribute is missing / raises / is a specification) equals the '
+              'specification' % len(pyt) if not bad else {'code_vs_spec': bad},
+              construct='table', node=f)
+    bad = {str(k): [v, want[k]] for k, v in ct.items() if v != want[k]}
+    ccheck(rep, 'F4', 'providedBy', not bad,
+           'decision table of the C providedBy over %d cases equals the '
+           'specification' % len(ct) if not bad else {'code_vs_spec': bad},
+           construct='table')
+    diff = {str(k): [pyt[k], ct[k]] for k in pyt if pyt[k] != ct[k]}
+    ccheck(rep, 'F4', 'providedBy', not diff,
+           'Python and C providedBy tables coincide' if not diff else
+           {'python_vs_c': diff}, construct='tables-equal')
     for fn, mod in (('providedBy', dmod), ('getObjectSpecification', dmod),
                     ('implementedBy', dmod), ('ObjectSpecificationDescriptor.__get__', dmod),
                     ('InterfaceBase.__call__', imod)):
